@@ -90,6 +90,10 @@ def _parse_bond_line(
 
     _validate_atom_index(index1, atom_attrs, line)
     _validate_atom_index(index2, atom_attrs, line)
+    if index1 == index2:
+        raise MolfileParserException(
+            f'Atom {index1 + 1} may not be connected to itself in line "{line}"'
+        )
 
     bond_attrs = {BOND_TYPE: _to_int(line[6:9])}  # ttt
 
